@@ -141,6 +141,8 @@ class Gen:
             k = r.randrange(9)
             if k < 4:
                 op = r.choice(["+", "-", "*", "/", "%"])
+                if op in "/%" and r.random() < 0.9:     # mostly no division by zero
+                    return "%s %s %s" % (self.atom(NUM, d + 1), op, r.choice(["1", "2", "3", "0.5"]))
                 return "%s %s %s" % (self.atom(NUM, d + 1), op, self.atom(NUM, d + 1))
             if k == 4:
                 return "-" + self.atom(NUM, d + 1)
@@ -153,7 +155,7 @@ class Gen:
             return "%s[%s][%s]" % (self.atom(AANUM, d + 1), self.index(d), self.index(d))
         if ty == STR:
             if leaf:
-                return '"%s"' % r.choice(["", "a", "bc", "hello", "x y"])
+                return '"%s"' % r.choice(["a", "bc", "hello", "x y", "a", "bc", "hello", "x y", ""])
             k = r.randrange(4)
             if k == 0:
                 return "%s + %s" % (self.atom(STR, d + 1), self.atom(STR, d + 1))
@@ -190,7 +192,7 @@ class Gen:
             if k == 0:
                 return "%s + %s" % (self.atom(ty, d + 1), self.atom(ty, d + 1))
             if k == 1:
-                return "%s * %s" % (self.atom(ty, d + 1), r.choice(["0", "1", "2"]))
+                return "%s * %s" % (self.atom(ty, d + 1), r.choice(["1", "2", "2", "3", "0"] if r.random() < 0.15 else ["1", "2"]))
             if k == 2:
                 return self.atom(ty, d + 1) + self.slice(d)
             if ty == ANUM:
@@ -198,7 +200,7 @@ class Gen:
             return "(" + self.expr(ty, d + 1) + ")"
         if ty == MNUM:
             n = r.choice([1, 2, 3])
-            ks = r.sample(KEYS, n)
+            ks = ["a"] + r.sample(KEYS[1:], n - 1)
             return "{" + " ".join("%s:%s" % (k, self.atom(NUM, d + 2)) for k in ks) + "}"
         raise ValueError(ty)
 
@@ -229,12 +231,16 @@ class Gen:
 
     def index(self, d):
         r = self.r
-        if r.random() < 0.75:
-            return str(r.choice([0, 0, 0, 1, -1]))
+        if r.random() < 0.88:
+            return "0"
+        if r.random() < 0.7:
+            return str(r.choice([1, -1, 2]))
         return self.atom(NUM, d + 2)
 
     def key(self, d):
         r = self.r
+        if r.random() < 0.9:
+            return '"a"'
         if r.random() < 0.7:
             return '"%s"' % r.choice(KEYS)
         return self.atom(STR, d + 2)
@@ -242,9 +248,11 @@ class Gen:
     def slice(self, d):
         r = self.r
         k = r.randrange(4)
-        a, b = str(r.choice([0, 1])), str(r.choice([1, 2, -1]))
-        if k < 2 and r.random() < 0.2:
-            a = self.atom(NUM, d + 2)
+        a, b = "0", "1"
+        if r.random() < 0.12:
+            a, b = str(r.choice([0, 1])), str(r.choice([1, 2, -1]))
+            if k < 2 and r.random() < 0.3:
+                a = self.atom(NUM, d + 2)
         return ["[%s:%s]" % (a, b), "[%s:]" % a, "[:%s]" % b, "[:]"][k]
 
     # -- statements
